@@ -26,9 +26,10 @@ ASSUMPTIONS = [
     'coefficients and vector entries are dyadic Gaussian rationals (float arithmetic exact)',
 ]
 OPEN_STATEMENTS = [
-    'qubit_sparse_sound / jw_sparse_sound (the assembled scipy matrix equals the Spec matrix for every n): '
-    'Corr + oracle only (all entries compared exactly on <= 5 qubits); proved: the Kronecker entry rule, the '
-    'big-endian index lemmas, count_qubits, operator-group partition, order independence of the parallel reduction',
+    'qubit_sparse_sound is proved per term (qubit_term_matrix_sound: Kronecker chain of a Pauli string = its Spec '
+    'matrix, every n); the coordinate assembly over several terms (values in CSC order zipped with the swapped '
+    'row-major nonzero() indices, duplicate summation, eliminate_zeros) and jw_sparse_sound are Corr + oracle only '
+    '(all entries compared exactly on <= 5 qubits)',
     'matvec_sound / diagonal_sound (the halving recursion equals matrix-vector multiplication): Corr + oracle only',
     'truncated boson / quadrature matrices (sqrt amplitudes): numeric correspondence only',
     'expectation / variance / eigenspectrum: contract-only glue over scipy, numeric correspondence',
